@@ -26,11 +26,34 @@ def run(ctx):
     ctx.assumptions += base.COMMON_ASSUMPTIONS + [
         "scope: the request query is expected in Location when the target has $path and no query of its own (documentation: $path = the original request URI); for targets without $path the query of Location is not judged; Location paths are compared after RFC 3986 normalisation of unreserved escapes and hex case (%41 = A), hosts case-insensitively; an empty $path is only asked where the join is unambiguous",
         "scope: the scheme of the request = X-Forwarded-Proto if the client (a proxy in front) sent it, else that of the connection; a redirect= value outside 300..399 must leave an ordinary route to the target",
-        "requests to the same redirect target are issued one after the other (the Location cached on the shared target under simultaneous requests is checked by C06)",
+        "in the replay of TLC's cases requests to the same redirect target are issued one after the other; simultaneous requests are covered by the concurrent stress runs of the DataPlane harness (16 goroutines, every documented $path/$host form, race detector), which this check runs as its 'schedules' part",
     ]
     base.run_prop(ctx, "C13", ctx.pick(4, 1),
                   "one case per finished pipeline run TLC enumerated (quick: the slice selected by the seed plus all bad-code and self-redirect layouts; thorough: the full product); non-trivial = settled on a redirect route (answered 3xx), a redirect passed over, or an ordinary route left by a redirect= value that is no 3xx code",
                   _pred, _corrupt, "location-path")
+    schedules(ctx)
+
+
+def schedules(ctx):
+    """'under any number of simultaneous requests': the recorded concurrent runs of C06 (DataPlane spec) for
+    the redirect clause - 16 goroutines, distinct requests to $path redirect routes of every documented form,
+    with the race detector; every Location must be the request's own."""
+    from checks import c06
+    for k in range(ctx.pick(1, 4)):
+        r = ctx.gotest("route", c06.FILES, "^TestVerifC06Stress$", race=True, timeout=900,
+                       env={"GOMAXPROCS": [16, 4, 2][k % 3], "VERIF_CYCLES": 1, "VERIF_ITERS": ctx.pick(300, 1500)})
+        if "WARNING: DATA RACE" in r.out and "RedirectURL" in r.out:
+            i = r.out.index("WARNING: DATA RACE")
+            ctx.violation({"sub": "schedules", "race": True}, "data race on the redirect location under simultaneous requests:\n" + r.out[i:i + 2000],
+                          replay={"sub": "schedules-race", "case": None})
+            return
+        if not ctx.need_go_ok(r, "C13 simultaneous requests"):
+            return
+        for f in r.of_kind("fail"):
+            if f.get("features", {}).get("clause") == "redirect-own":
+                ctx.violation({"sub": "schedules", "clause": "redirect-own", "form": f["features"].get("form")},
+                              "simultaneous requests: " + f.get("msg", ""), replay={"sub": "schedules", "case": None})
+        ctx.cover("schedules", traces_validated_against_impl=1, evaluations=r.summary["lookups"] // 2)
 
 
 def replay(ctx, rp):
